@@ -19,6 +19,7 @@ import (
 	"sort"
 	"strings"
 	"sync"
+	"time"
 
 	"verif/harness/internal/model"
 	"verif/harness/internal/report"
@@ -33,10 +34,10 @@ type runResult struct {
 	SpecFail   *specFail       `json:"spec_fail,omitempty"`
 	// Digest of the whole recorded run (every op line, output digest, state digest): C19 compares it
 	// between two executions in one process and between processes
-	Digest   string `json:"digest"`
-	Nondet   string `json:"nondeterminism,omitempty"`
-	SpecActs   int             `json:"spec_actions"`
-	Stats      map[string]int  `json:"stats"`
+	Digest   string         `json:"digest"`
+	Nondet   string         `json:"nondeterminism,omitempty"`
+	SpecActs int            `json:"spec_actions"`
+	Stats    map[string]int `json:"stats"`
 }
 
 // specFail: the abstract protocol rejected an action the implementation took, or the abstract state
@@ -64,8 +65,10 @@ func genOpts(rng *rand.Rand, tier string, mode string) sim.Opts {
 	if mode == "all" {
 		// the mix used by the registered checks
 		switch r := rng.Intn(100); {
-		case r < 35:
+		case r < 30:
 			mode = "mixed"
+		case r < 35:
+			mode = "joint"
 		case r < 65:
 			mode = "nodefuzz"
 		case r < 75:
@@ -179,6 +182,13 @@ func genOpts(rng *rand.Rand, tier string, mode string) sim.Opts {
 		o.Voters, o.Learners = []uint64{1}, nil
 		o.Reads, o.Crashes, o.CrashHeavy = true, true, true
 		o.ConfChanges = false
+	case "joint": // long-lived joint configurations with reads, transfers and partitions
+		o.ConfChanges, o.JointHeavy, o.Reads, o.Transfers = true, true, true, rng.Intn(2) == 0
+		o.Partitions = rng.Intn(2) == 0
+		if len(o.Voters) < 3 {
+			o.Voters = []uint64{1 * idMul, 2 * idMul, 3 * idMul}
+			o.Learners = nil
+		}
 	case "zero": // limits set to zero
 		o.MaxSizePerMsg, o.MaxCommittedSizePerReady = 0, 0
 		o.MaxInflightBytes = 0
@@ -347,7 +357,7 @@ func main() {
 	noModel := flag.Bool("nomodel", false, "skip the model comparison")
 	trace := flag.Bool("trace", false, "print the environment trace of a replay")
 	child := flag.Bool("child", false, "internal: run as worker, print one JSON line per run")
-	mode := flag.String("mode", "all", "mixed|converge|asynccrash|single|zero|snap|figure8|nodefuzz")
+	mode := flag.String("mode", "all", "mixed|converge|asynccrash|single|zero|snap|figure8|joint|nodefuzz")
 	corpus := flag.String("corpus", "", "directory of replay files to run first (minimised past findings)")
 	directed := flag.String("directed", "", "internal: JSON options to vary (directed search)")
 	rerun := flag.String("rerun", "", "internal: JSON list of options to re-execute (cross-process determinism)")
@@ -384,7 +394,17 @@ func main() {
 					o = base
 				}
 			}
+			// watchdog: a run that does not come back (a call into the library that loops, or a schedule that never
+			// quiesces) is reported with its options instead of hanging the check
+			wd := time.AfterFunc(10*time.Minute, func() {
+				hung := runResult{Opts: o, Stats: map[string]int{}, Violations: []sim.Violation{{Prop: "*", Key: "run does not terminate",
+					What: "the run did not finish within 10 minutes (a call that does not return, or a schedule that never quiesces)"}}}
+				b, _ := json.Marshal(hung)
+				os.Stdout.Write(append(b, '\n'))
+				os.Exit(3)
+			})
 			rr := oneRun(o, !*noModel)
+			wd.Stop()
 			if *rerun != "" || i%6 == 0 {
 				// C19: the same run executed a second time in this process must be identical
 				r2 := oneRun(o, false)
